@@ -520,6 +520,10 @@ def gen_raster(rng):
         w += rng.choice([1, 2, 3])
     dtype = rng.choice(["uint8", "uint16"])
     top = 255 if dtype == "uint8" else 65535
+    full = top
+    if rng.random() < 0.2:
+        top = rng.choice([3, 40, 200, 255, 256, 1000])   # a dark image: the value range actually used says nothing about the bit depth
+        top = min(top, full)
     gen = rng.choice(["noise", "ramp", "ramp+noise", "steps"])
     a, b = rng.uniform(-0.12, 0.12), rng.uniform(-0.12, 0.12)
     c = rng.uniform(0.2, 0.8)
